@@ -520,6 +520,127 @@ func runC11(c *Ctx) {
 			c.Undecided(fname(vb)+"#known-only-if-canonical-with-state", vb.Pos(), "no return of ErrKnownBlock found in ValidateBody")
 		}
 	}
+
+	// ------------------------------------------------------------ H7
+	c.Rule("C11.H7", "EXIT", "a block whose body does not belong to its header never becomes canonical: ValidateBody answers nil only on paths that compared DeriveSha of the block's own transactions with the header's TxHash and found them equal — also for a block that is already stored (insertSidechain stores side-chain bodies before validating them and re-imports them from the database, so 'known' says nothing about the body)")
+	c.Min(1)
+	{
+		vb := w.Fn("core", "BlockValidator", "ValidateBody")
+		nNil, bad := 0, 0
+		for _, rp := range returnPaths(vb, 0) {
+			if rp.Kind != RetNil {
+				continue
+			}
+			nNil++
+			c.sites++
+			okTx := false
+			for _, a := range rp.Atoms() {
+				if a.Kind != "eq" || !a.Truth || a.Y == nil {
+					continue
+				}
+				for _, pair := range [][2]ssa.Value{{a.X, a.Y}, {a.Y, a.X}} {
+					isDerive := derivesFrom(pair[0], func(v ssa.Value) bool {
+						cc, ok := v.(*ssa.Call)
+						return ok && calleeObj(cc) != nil && calleeObj(cc).Name() == "DeriveSha"
+					})
+					isTxHash := derivesFrom(pair[1], func(v ssa.Value) bool {
+						f, _ := loadedField(v)
+						return f != nil && f.Name() == "TxHash"
+					})
+					if isDerive && isTxHash {
+						okTx = true
+					}
+				}
+			}
+			if !okTx {
+				bad++
+			}
+		}
+		c.Check(fname(vb)+"#nil-only-after-transaction-root-check", vb.Pos(), nNil > 0 && bad == 0, ifelse(nNil > 0 && bad == 0, fmt.Sprintf("all %d accepting returns passed DeriveSha(txs) == header.TxHash", nNil), fmt.Sprintf("%d of %d accepting returns of ValidateBody skip the transaction-root comparison: a stored side-chain block with a forged body (same header, other transactions) is imported and becomes canonical", bad, nNil)))
+	}
+
+	// ------------------------------------------------------------ H8
+	c.Rule("C11.H8", "ATOMIC-GROUP", "the head markers of one head switch become durable together: a function of package core that puts two or more of them (head header hash, number→hash entry, head block hash, transaction lookups) into a batch never writes or resets that batch between them — the flush belongs to the caller, after the whole group. An early flush when the batch grows large (a block with thousands of transactions) leaves, after a crash, a number→hash entry of the new branch under the old head marker")
+	c.Min(1)
+	{
+		marker := map[string]bool{"WriteHeadHeaderHash": true, "WriteCanonicalHash": true, "WriteHeadBlockHash": true, "WriteTxLookupEntries": true, "DeleteTxLookupEntry": true, "WriteHeadFastBlockHash": true}
+		nGroups := 0
+		for _, fn := range w.FuncsIn("core") {
+			if fn.Blocks == nil || strings.HasSuffix(w.fileOf(fn.Pos()), "_test.go") {
+				continue
+			}
+			type mw struct {
+				at    ssa.Instruction
+				batch ssa.Value
+			}
+			var marks []mw
+			for _, ci := range callInstrs(fn) {
+				o := calleeObj(ci)
+				if o == nil || !marker[o.Name()] || o.Pkg() == nil || !strings.HasSuffix(o.Pkg().Path(), "core/rawdb") {
+					continue
+				}
+				args := callArgs(ci)
+				if len(args) == 0 {
+					continue
+				}
+				marks = append(marks, mw{ci.(ssa.Instruction), stripConv(args[0])})
+			}
+			if len(marks) < 2 {
+				continue
+			}
+			nGroups++
+			c.sites++
+			c.sawFunc(fname(fn))
+			reach := func(a, b ssa.Instruction) bool {
+				if a.Block() == b.Block() {
+					if instrIndex(a) < instrIndex(b) {
+						return true
+					}
+				}
+				seen := map[*ssa.BasicBlock]bool{}
+				work := append([]*ssa.BasicBlock(nil), a.Block().Succs...)
+				for len(work) > 0 {
+					x := work[len(work)-1]
+					work = work[:len(work)-1]
+					if seen[x] {
+						continue
+					}
+					seen[x] = true
+					if x == b.Block() {
+						return true
+					}
+					work = append(work, x.Succs...)
+				}
+				return false
+			}
+			bad := ""
+			for _, ci := range callInstrs(fn) {
+				o := calleeObj(ci)
+				if o == nil || !(o.Name() == "Write" || o.Name() == "Reset") {
+					continue
+				}
+				r := callRecv(ci)
+				if r == nil {
+					continue
+				}
+				in := ci.(ssa.Instruction)
+				for _, m1 := range marks {
+					if stripConv(r) != m1.batch && !samePath(r, m1.batch) {
+						continue
+					}
+					for _, m2 := range marks {
+						if m1.at != m2.at && reach(m1.at, in) && reach(in, m2.at) && !(isLoopCarried(m1.at, in, m2.at)) {
+							bad = fmt.Sprintf("batch.%s at %s between %s and %s", o.Name(), w.Pos(ci.Pos()), calleeName(m1.at.(ssa.CallInstruction)), calleeName(m2.at.(ssa.CallInstruction)))
+						}
+					}
+				}
+			}
+			c.Check(fname(fn)+"#head-markers-in-one-flush", fn.Pos(), bad == "", ifelse(bad == "", "no flush or reset of the batch between the marker writes", "the batch that carries the head markers is flushed in the middle of the group ("+bad+"): a crash right after the early flush leaves part of the head switch durable and the rest not"))
+		}
+		if nGroups == 0 {
+			c.Undecided("core#head-marker-groups", token.NoPos, "no function writing two or more head markers into a batch found")
+		}
+	}
 }
 
 func collectExtracts(v ssa.Value, call ssa.CallInstruction, got map[int]bool) {
@@ -826,3 +947,10 @@ func c11Variants() []Variant {
 		{Name: "ignore-validate-state", File: f, Old: "		err = bc.Validator().ValidateState(block, parent, stateDb, result.Recs, result.UsedGas)\n		if err != nil {", New: "		err = bc.Validator().ValidateState(block, parent, stateDb, result.Recs, result.UsedGas)\n		if err != nil && result == nil {", Rule: "C11.H3", Construct: "write-after-validate-state"},
 	}
 }
+
+// isLoopCarried: the only way from the flush to the second marker write leads
+// around a loop back edge while the first marker write follows the flush in
+// straight-line order — i.e. the flush closes one group and the marker write
+// opens the next iteration's group. Not used as an excuse today (no such loop
+// exists); kept conservative: always false.
+func isLoopCarried(m1, flush, m2 ssa.Instruction) bool { return false }
